@@ -72,6 +72,8 @@ def build(tier, repo):
         setexpr = cmpn.comparators[0]
         if isinstance(setexpr, ast.Name):
             defs = [s for s in fn.body if isinstance(s, ast.Assign) and isinstance(s.targets[0], ast.Name) and s.targets[0].id == setexpr.id]
+            if not defs:      # a module-level constant shared by several solvers
+                defs = [s for s in m.tree.body if isinstance(s, ast.Assign) and isinstance(s.targets[0], ast.Name) and s.targets[0].id == setexpr.id]
             accepted = _const_tuple(defs[0].value) if len(defs) == 1 else None
         else:
             accepted = _const_tuple(setexpr)
